@@ -28,8 +28,8 @@ constexpr bool post_asin(fixed_t x, fixed_t r)
   if( outside ) return vf_isnan(r);
   return r.v >= -PIDIV2 && r.v <= PIDIV2 && (x.v != 0 || r.v == 0) && (x.v <= 0 || r.v >= 0) && (x.v >= 0 || r.v <= 0);
   }
-constexpr bool lem_c12_odd(fixed_t x) { return asin(-x) == -asin(x); }
-constexpr bool lem_c12_acos(fixed_t x)
+inline bool lem_c12_odd(fixed_t x) { return asin(-x) == -asin(x); }
+inline bool lem_c12_acos(fixed_t x)
   {
   fixed_t c = acos(x);
   if( x.v > 65536 || x.v < -65536 ) return vf_isnan(c);
